@@ -21,27 +21,29 @@ import (
 // predicts an error.
 
 type cliCase struct {
-	Ali        gen.Ali   `json:"ali"`
-	Kind       string    `json:"kind"` // window | pos | unique
-	UseRef     bool      `json:"use_ref"`
-	Ref        string    `json:"ref"`
-	Start      int       `json:"start"`
-	Len        int       `json:"len"`
-	Pos        []int     `json:"pos"`
-	SetReplace bool      `json:"set_replace"`
-	Replace    string    `json:"replace"`
-	NoGap      bool      `json:"nogap"`
-	NoRef      bool      `json:"noref"`
-	SetAtMost  bool      `json:"set_at_most"`
-	AtMost     int       `json:"at_most"`
-	Auto       bool      `json:"auto_alphabet"` // let goalign detect the alphabet
-	Extra      bool      `json:"extra"`         // --unique together with the flags documented as ignored
-	More       []gen.Ali `json:"more"`          // further alignments of the input file (then a Phylip stream, -p)
-	Layout     int       `json:"layout"`        // Phylip output layout: 0 default, 1 --one-line, 2 --no-block, 3 both
+	Ali        gen.Ali    `json:"ali"`
+	Kind       string     `json:"kind"` // window | pos | unique
+	UseRef     bool       `json:"use_ref"`
+	Ref        string     `json:"ref"`
+	Start      int        `json:"start"`
+	Len        int        `json:"len"`
+	Pos        []int      `json:"pos"`
+	SetReplace bool       `json:"set_replace"`
+	Replace    string     `json:"replace"`
+	NoGap      bool       `json:"nogap"`
+	NoRef      bool       `json:"noref"`
+	SetAtMost  bool       `json:"set_at_most"`
+	AtMost     int        `json:"at_most"`
+	Auto       bool       `json:"auto_alphabet"` // let goalign detect the alphabet
+	Extra      bool       `json:"extra"`         // --unique together with the flags documented as ignored
+	Fasta      cli.Layout `json:"fasta_layout"`  // presentation of the FASTA input
+	OutFile    int        `json:"out_file"`      // 0 standard output; -o <file>: 1 a new file, 2 an existing (stale) file
+	More       []gen.Ali  `json:"more"`          // further alignments of the input file (then a Phylip stream, -p)
+	Layout     int        `json:"layout"`        // Phylip output layout: 0 default, 1 --one-line, 2 --no-block, 3 both
 }
 
-var cliNt = []string{"ACGT--", "AC-", "ACGTN--", "ACacGT--"}
-var cliAa = []string{"ARND--", "AR-", "ARNDCQEGHX---", "LKMFPSTWYV---"}
+var cliNt = []string{"ACGT--", "AC-", "ACGTN--", "ACacGT--", "ACGUacgu--"}
+var cliAa = []string{"ARND--", "AR-", "ARNDCQEGHX---", "LKMFPSTWYV---", "LKMFlkmfqeip---"}
 
 func nonGap(seq string) []int {
 	var p []int
@@ -130,13 +132,8 @@ func genCLI(t *rapid.T) cliCase {
 		}
 	}
 	// automatic detection is predictable when the letters decide: nucleotide sets always, protein sets only
-	// with a letter that is no nucleotide code
-	decides := alphabet == "nt"
-	for _, r := range c.Ali.Rows {
-		if strings.ContainsAny(r.Seq, "EFILPQZefilpqz") {
-			decides = true
-		}
-	}
+	// with a letter (in either case) that is no nucleotide code
+	decides := decided(c.Ali.Rows, alphabet)
 	c.Auto = decides && rapid.Bool().Draw(t, "auto")
 	// several alignments in one (Phylip) input file: the command loops over them
 	if uni(t, 3, "multi") == 0 {
@@ -150,6 +147,12 @@ func genCLI(t *rapid.T) cliCase {
 		}
 		c.Layout = uni(t, 4, "layout")
 		c.Auto = false
+	}
+	if uni(t, 3, "fastalayout") == 0 {
+		c.Fasta = cli.DrawLayout(t)
+	}
+	if uni(t, 3, "outfile") == 0 {
+		c.OutFile = 1 + uni(t, 2, "stale")
 	}
 	return c
 }
@@ -165,7 +168,10 @@ func checkCLI(dir string, c cliCase) (o pbt.Outcome, err error) {
 		}
 		in = cli.TempFile(dir, ".phy", cli.Phylip(all...))
 	} else {
-		in = cli.TempFile(dir, ".fa", cli.Fasta(rows))
+		in = cli.TempFile(dir, ".fa", cli.FastaLayout(rows, c.Fasta))
+		if !c.Fasta.Plain() {
+			o.Class("cli input:fasta-other-layout")
+		}
 	}
 	defer os.Remove(in)
 	args := []string{"mask", "-i", in}
@@ -211,7 +217,7 @@ func checkCLI(dir string, c cliCase) (o pbt.Outcome, err error) {
 	}
 	o.Class("cli kind=%s ref=%v", c.Kind, c.UseRef)
 	o.Class("cli mode=%s", modeKind(c.Replace))
-	_, _, modeOK := replacement(c.Replace, c.Ali.Alphabet)
+	_, _, modeOK := replacement(c.Replace, alphaOf(c.Ali))
 	// plan: the model's prediction for one alignment of the input
 	plan := func(o *pbt.Outcome, a gen.Ali) (m maskModel) {
 		rows, l := a.Rows, aliLen(a)
@@ -271,7 +277,7 @@ func checkCLI(dir string, c cliCase) (o pbt.Outcome, err error) {
 				}
 			}
 			if !m.Err {
-				m.Cols = maskColumns(o, rows, a.Alphabet, ref, cols, c.Replace, c.NoGap, c.NoRef)
+				m.Cols = maskColumns(o, rows, alphaOf(a), ref, cols, c.Replace, c.NoGap, c.NoRef)
 			}
 			if !m.Err && c.UseRef && !c.NoRef && len(c.Pos) > 1 {
 				// an earlier position turns the reference residue into a gap and a later position is not smaller:
@@ -314,8 +320,32 @@ func checkCLI(dir string, c cliCase) (o pbt.Outcome, err error) {
 		inputs = append(inputs, a)
 		o.Ambiguous += o2.Ambiguous
 	}
+	outPath := ""
+	if c.OutFile > 0 {
+		// the output goes to a new file, or to a file that exists already (its stale content must be replaced)
+		outPath = cli.TempFile(dir, ".out", "")
+		os.Remove(outPath)
+		if c.OutFile == 2 {
+			cli.StaleFile(outPath, 40)
+			o.Class("cli output:-o existing file")
+		} else {
+			o.Class("cli output:-o new file")
+		}
+		args = append(args, "-o", outPath)
+		defer os.Remove(outPath)
+	}
 	r := cli.Run("", args...)
 	what := fmt.Sprintf("goalign %s", strings.Join(args, " "))
+	if outPath != "" && r.Exit == 0 {
+		b, e := os.ReadFile(outPath)
+		if e != nil {
+			return o, fmt.Errorf("%s: the output file was not written: %v", what, e)
+		}
+		if strings.TrimSpace(r.Stdout) != "" {
+			return o, fmt.Errorf("%s: output requested in a file, but standard output holds\n%s", what, firstLines(r.Stdout, 6))
+		}
+		r.Stdout = string(b)
+	}
 	showIn := gen.Show(rows)
 	for _, a := range c.More {
 		showIn += "| " + gen.Show(a.Rows)
